@@ -59,6 +59,21 @@ def direct_instances(tier, rng):
             for X in subsets(u["edges"], rng, True):
                 insts.append({"kind": "digraph", "fn": "dominators+incompatible", "nodes": u["nodes"], "edges": u["edges"],
                               "starts": st, "ends": en, "items": [[e] for e in X]})
+    # larger graphs (seeded random DAGs and cyclic digraphs on 5-7 nodes) with trusted sets that are proper subsets: edges in no
+    # safe sequence weigh 0 in the antichain computation that assigns sequences to slots
+    big = []
+    for _ in range(24 if quick else 200):
+        big.append(C.random_dag(rng, rng.randint(5, 7), rng.randint(7, 10)))
+    for _ in range(12 if quick else 100):
+        g = C.random_cyclic(rng, rng.randint(5, 6), rng.randint(7, 9))
+        if g:
+            big.append(g)
+    for u in big:
+        E = [list(e) for e in u["edges"]]
+        for _ in range(4):
+            X = rng.sample(E, rng.randint(2, max(2, len(E) // 2)))
+            insts.append({"kind": "digraph", "fn": "dominators+incompatible", "nodes": u["nodes"], "edges": u["edges"],
+                          "starts": [], "ends": [], "items": [[e] for e in X], "big": True})
     return insts
 
 
